@@ -183,7 +183,10 @@ def normalisation(ctx, rule='C15-R2', rule3='C15-R3'):
     evs = fx.deep_events(Q)
     s = fx.deep(Q)[1]
     # deep copy first, argument untouched (C11-R1), result is that copy
-    first = [e for e in evs if e.kind in ('call', 'assign')][:1]
+    from sa.anchors import is_helper
+    # (a helper that wraps the copy is looked through: its call event is followed by the events of its body)
+    first = [e for e in evs if e.kind in ('call', 'assign') and
+             not (e.kind == 'call' and (call_head(e) or '') in p.funcs and is_helper(p, call_head(e)))][:1]
     ctx.check(bool(first) and first[0].kind == 'call' and call_head(first[0]) == 'copy.deepcopy'
               and first[0].call[2] == (('p', f.params[0]),), rule, Q, first[0].node if first else f.node.name, f.loc(),
               'the first action is not a deep copy of the argument', instance='deep copy first')
@@ -283,7 +286,15 @@ def required_columns(ctx, rule='C15-R4'):
                 ctx.violation(rule, q, e.node, e.loc(), f'{q} modifies {key[1]}', instance=f'{q} writes the column table')
     k = p.klass('ampycloud.data.AbstractChunk', rule)
     ca = k.class_attrs.get('DATA_COLS')
-    ok = ca is not None and isinstance(ca, ast.Call) and p.resolve_static(k.module, ca.func, None) in (
+    head = p.resolve_static(k.module, ca.func, None) if ca is not None and isinstance(ca, ast.Call) else None
+    if head in p.funcs and head in fx.summ:
+        # a one-line wrapper of the copy (def _private_copy(obj): return copy.deepcopy(obj)) is that copy
+        r = fx.summ[head].ret
+        hf = p.funcs[head]
+        if tag(r) == 'call' and tag(r[1]) == 'g' and r[1][1] in ('copy.deepcopy', 'copy.copy', 'builtins.dict') and \
+                hf.params and r[2] == (('p', hf.params[0]),):
+            head = r[1][1]
+    ok = ca is not None and isinstance(ca, ast.Call) and head in (
         'copy.deepcopy', 'copy.copy', 'builtins.dict') and ca.args and \
         p.resolve_static(k.module, ca.args[0], None) == REQ
     ctx.check(ok, rule, k.qname, 'DATA_COLS', k.module.relpath,
